@@ -181,6 +181,7 @@ _connect_to_server_tcp(pm_handle_t pmh, char *server, int family)
             continue;
         if (connect(pmh->pmh_fd, r->ai_addr, r->ai_addrlen) < 0) {
             close(pmh->pmh_fd);
+            pmh->pmh_fd = -1;
             continue;
         }
         err = PM_ESUCCESS;
@@ -360,10 +361,12 @@ pm_connect(char *server, void *arg, pm_handle_t *pmhp, int flags)
         return PM_EBADARG;
     if ((pmh = (pm_handle_t)malloc(sizeof(struct pm_handle_struct))) == NULL)
         return PM_ENOMEM;
+    pmh->pmh_fd = -1;
 
     if ((err = _connect_to_server_tcp(pmh, server, (flags & PM_CONN_INET6)
                                 ? PF_INET6 : PF_UNSPEC)) != PM_ESUCCESS) {
-        (void)close(pmh->pmh_fd);
+        if (pmh->pmh_fd >= 0)
+            (void)close(pmh->pmh_fd);
         free(pmh);
         return err;
     }
